@@ -286,7 +286,8 @@ class RadiRouter:
             route = self.named_routes.pop(name)
             route_pattern = route.pattern
 
-        self.radidict.remove(route_pattern)
+        # a Route object (given or found by name) is removed exactly, even if its rule ends with '*'
+        self.radidict.remove(route_pattern, exact=route is not None)
         if route:
             del self.routes[route.pattern]
             self._remove_named_routers({route.pattern})
